@@ -211,5 +211,92 @@ Section Eff.
       + apply create_props_ok. intros [tt pp] Hin Hn. cbn [fst snd] in *. apply in_map_iff in Hin. destruct Hin as ([t' c'] & [= <- <-] & Hin).
         split; [exact Hi|]. split; [reflexivity|]. intros c H. discriminate H.
       + apply List.Forall_cons; [|apply List.Forall_nil]. cbn. split; [exact Hi|]. match goal with H : t_details T = _ |- _ => rewrite H end. exact Ht.
+    - cbn [fst]. apply List.Forall_cons; [|apply List.Forall_nil]. cbn. split; [exact Hi|]. match goal with H : t_details T = _ |- _ => rewrite H end. exact Ht.
+    - cbn [fst]. apply List.Forall_cons; [|apply List.Forall_nil]. cbn. split; [exact Hi|]. match goal with H : t_details T = _ |- _ => rewrite H end. exact Ht.
+  Qed.
+  (** * the proposal, configuration, mastership and connection reconcilers *)
+  Local Opaque restore record_applied commit_merge touched overlay rollback_of candidate candidate_rb payload resync_payload stamp doc_ok.
+
+  Ltac conc_link :=
+    try match goal with H : _ = Some ?e |- _ => is_var e;
+          repeat match type of H with context [match ?x with _ => _ end] => destruct x eqn:? end;
+          try discriminate H; injection H as <- end.
+
+  Ltac cg_tac :=
+    first [ apply cgood_nil
+          | eapply cg_view; eassumption
+          | eapply cg_aview; eassumption
+          | eapply cg_restore; eassumption
+          | eapply cg_touched; eassumption
+          | eapply cg_record; eassumption
+          | eapply cg_commit; eassumption ].
+
+  Ltac eff_tac Hall :=
+    cbn [eff_ok];
+    lazymatch goal with
+    | |- True => exact I
+    | |- ex _ =>
+      eexists; split; [eassumption|]; split; [reflexivity|];
+      let rb := fresh "rb" in let Hrb := fresh "Hrb" in
+      intros rb Hrb; cbn in Hrb;
+      first [ eapply Hall; [|exact Hrb]; eassumption
+            | injection Hrb as <-; eapply cg_rollback; eauto ]
+    | |- cgood _ _ _ /\ cgood _ _ _ => split; cbn; cg_tac
+    | |- cgood _ _ _ => cg_tac
+    | |- _ = _ /\ _ => repeat split
+    end.
+
+  Lemma rec_prop_ok (o : oracle) (w : Wd) t i :
+    SInv w -> (forall C : Cfg, cfgs w !! t = Some C -> dyn C) ->
+    Forall (eff_ok w) (fst (p2_reconcile o w (CtlProp (t, i)))).
+  Proof.
+    intros HS HD. unfold p2_reconcile. cbn [Proto2.reconcile]. unfold Proto2.rec_prop, Proto2.vfail, Proto2.upd_status.
+    match goal with |- context [match ?x with Some _ => _ | None => ([], RDone) end] => destruct x as [P|] eqn:HP end; [|apply List.Forall_nil].
+    assert (Hall : forall i' (Q : Prop2) rb, props w !! (t, i') = Some Q -> p_rbvalues Q = Some rb -> cgood w t rb /\ WFC rb).
+    { intros i' Q rb HQ Hr. apply (si_prop Lf w HS _ _ _ HQ). exact Hr. }
+    destruct_matches; cbn [fst app]; conc_link;
+      repeat (apply List.Forall_cons; [|]); try apply List.Forall_nil; eff_tac Hall.
+  Qed.
+
+  Lemma upd_status_ok (w : Wd) t (C C' : Cfg) : SInv w -> cfgs w !! t = Some C -> Forall (eff_ok w) (upd_status overlay restore nil t C C').
+  Proof.
+    intros HS HC. unfold Proto2.upd_status. apply List.Forall_cons; [cbn [eff_ok]; eapply cg_restore; eassumption|].
+    apply List.Forall_cons; [|apply List.Forall_nil]. cbn [eff_ok]. split; cbn; [eapply cg_view; eassumption|apply cgood_nil].
+  Qed.
+
+  Lemma resync_ok (w : Wd) t m term a reqs : Forall (eff_ok w) (fst (@resync_effs cmap cmap req t m term a reqs)).
+  Proof.
+    apply List.Forall_forall. intros e He. apply resync_effs_in in He. destruct He as (r & -> & _). exact I.
+  Qed.
+
+  Lemma rec_cfg_ok (o : oracle) (w : Wd) t : SInv w -> Forall (eff_ok w) (fst (p2_reconcile o w (CtlCfg t))).
+  Proof.
+    intros HS. unfold p2_reconcile. cbn [Proto2.reconcile]. unfold Proto2.rec_cfg.
+    destruct_matches; cbn [fst]; try apply List.Forall_nil; try (apply upd_status_ok; assumption).
+    all: match goal with E : resync_effs ?t0 ?m0 ?te0 ?a0 ?rq0 = (?es, _) |- _ =>
+           pose proof (resync_ok w t0 m0 te0 a0 rq0) as Hr; rewrite E in Hr; cbn [fst] in Hr end.
+    all: first [exact Hr | apply Forall_app_2; [exact Hr|apply upd_status_ok; assumption]].
+  Qed.
+
+  Lemma rec_master_ok (o : oracle) (w : Wd) t : SInv w -> Forall (eff_ok w) (fst (p2_reconcile o w (CtlMaster t))).
+  Proof.
+    intros HS. unfold p2_reconcile. cbn [Proto2.reconcile]. unfold Proto2.rec_master.
+    destruct_matches; cbn [fst]; try apply List.Forall_nil; apply upd_status_ok; assumption.
+  Qed.
+
+  Lemma rec_conn_ok (w : Wd) c : Forall (eff_ok w) (fst (@rec_conn cmap cmap req dstate w c)).
+  Proof.
+    unfold Proto2.rec_conn. destruct_matches; cbn [fst]; repeat (apply List.Forall_cons; [exact I|]); apply List.Forall_nil.
+  Qed.
+
+  Theorem reconcile_ok (o : oracle) (w : Wd) c :
+    SInv w -> (forall t (C : Cfg), cfgs w !! t = Some C -> dyn C) -> Forall (eff_ok w) (fst (p2_reconcile o w c)).
+  Proof.
+    intros HS HD. destruct c as [i|[t i]|t|t|cc].
+    - apply rec_tx_ok. exact HS.
+    - apply rec_prop_ok; [exact HS|apply HD].
+    - apply rec_cfg_ok. exact HS.
+    - apply rec_master_ok. exact HS.
+    - apply rec_conn_ok.
   Qed.
 End Eff.
